@@ -112,3 +112,46 @@ Proof.
   split; [repeat constructor|].
   split; eexists; (split; [vm_compute; reflexivity|]); try split; vm_compute; reflexivity.
 Qed.
+
+(* ---- the printed path and the written path (composition with C19, Model/Paths.v) ----
+   Included makefiles are written under their raw path (line.Filename(), e.g.
+   "cat/pkg/../other/../../devel/lib/version.mk") while the AUTOFIX line prints what
+   Logger.Logf makes of it: [printed_path f] = CleanPath of a non-empty f, "" for ".".
+   For every working directory: the path printed in some AUTOFIX line of the run denotes
+   (lexically, Spec/PathDenote.v) the very file that a rename replaces / a chmod changes. *)
+From PV Require Import Spec.PathDenote Proofs.AutofixPaths.
+
+Theorem C02_printed_path_denotes : forall cwd f : str, denote cwd (printed_path f) = denote cwd f.
+Proof. exact printed_path_denotes. Qed.
+Print Assumptions C02_printed_path_denotes.
+
+Theorem C02_printed_path_denotes_written :
+  forall o keys evs st st',
+    o_autofix o = true -> fresh st -> run o keys evs st = Ok st' ->
+    forall cwd,
+    Forall (fun op => forall f, op_target op = Some f ->
+              exists g, In g (s_log st') /\ denote cwd (printed_path (g_file g)) = denote cwd f)
+           (s_ops st').
+Proof. exact printed_path_denotes_written. Qed.
+Print Assumptions C02_printed_path_denotes_written.
+
+(* all operations, the temporary files included: [op_justified] with "an AUTOFIX line whose
+   printed path denotes f" in the place of "an AUTOFIX line for the raw name f" *)
+Theorem C02_autofix_ops_named :
+  forall o keys evs st st',
+    o_autofix o = true -> fresh st -> run o keys evs st = Ok st' ->
+    forall cwd, Forall (op_named cwd (s_log st')) (s_ops st').
+Proof. exact autofix_ops_named. Qed.
+Print Assumptions C02_autofix_ops_named.
+
+(* non-vacuity: "cat/pkg/../oth/../../dev/lib/v.mk" is printed as it is (CleanPath starts at
+   the third component and needs two names before "../.."), "a/b/c/d/../../e" is printed as
+   "a/b/e", "." is printed as ""; all denote the same file as the raw path *)
+Example C02_printed_path_examples :
+  printed_path [97;47;98;47;99;47;100;47;46;46;47;46;46;47;101]%N = [97;47;98;47;101]%N /\
+  printed_path [46]%N = []%list /\
+  printed_path [99;47;112;47;46;46;47;111;47;46;46;47;46;46;47;100;47;118]%N
+             = [99;47;112;47;46;46;47;111;47;46;46;47;46;46;47;100;47;118]%N /\
+  denote [47;114]%N [99;47;112;47;46;46;47;111;47;46;46;47;46;46;47;100;47;118]%N
+             = [[114]; [100]; [118]]%N%list.
+Proof. repeat split; vm_compute; reflexivity. Qed.
